@@ -105,7 +105,7 @@ deriving Repr
 def soapEnvNs : Str := "http://schemas.xmlsoap.org/soap/envelope/".toList
 def pre1 : Str :=
   "<?xml version=\"1.0\"?><s:Envelope s:encodingStyle=\"http://schemas.xmlsoap.org/soap/encoding/\" xmlns:s=\"http://schemas.xmlsoap.org/soap/envelope/\"><s:Body><u:".toList
-def pre2 : Str := "xmlns:u=\"".toList
+def pre2 : Str := "xmlns:u=".toList
 def suf1 : Str := "</u:".toList
 def suf2 : Str := "></s:Body></s:Envelope>".toList
 
@@ -145,10 +145,14 @@ def renderArgs (extra : List (Char × Str)) : List (Str × Str) → Str
   | [p] => renderArg extra p
   | p :: r => renderArg extra p ++ '\n' :: renderArgs extra r
 
-def renderBody (extra : List (Char × Str)) (name st : Str) (args : List (Str × Str)) : Str :=
-  pre1 ++ name ++ ' ' :: pre2 ++ st ++ '"' :: '>' :: renderArgs extra args ++ suf1 ++ name ++ suf2
+/-- the value of `xmlns:u=`: `quoteattr(service_type)` (`nsq`), or the service type pasted between
+    double quotes as older sources did -/
+def nsAttr (nsq : Bool) (st : Str) : Str := if nsq then quoteattr st else '"' :: st ++ ['"']
 
-def createRequest (O : Oracles) (extra : List (Char × Str)) (a : ActionDecl) (kw : Kwargs) :
+def renderBody (extra : List (Char × Str)) (nsq : Bool) (name st : Str) (args : List (Str × Str)) : Str :=
+  pre1 ++ name ++ ' ' :: pre2 ++ nsAttr nsq st ++ '>' :: renderArgs extra args ++ suf1 ++ name ++ suf2
+
+def createRequest (O : Oracles) (extra : List (Char × Str)) (nsq : Bool) (a : ActionDecl) (kw : Kwargs) :
     Except Exc Request :=
   match urljoin a.deviceUrl a.controlUrl with
   | none => .error (.unmodelled "url")
@@ -163,13 +167,13 @@ def createRequest (O : Oracles) (extra : List (Char × Str)) (a : ActionDecl) (k
               headers := [("SOAPAction".toList, '"' :: a.serviceType ++ '#' :: a.name ++ ['"']),
                           ("Host".toList, netloc url),
                           ("Content-Type".toList, "text/xml; charset=\"utf-8\"".toList)],
-              body := renderBody extra a.name a.serviceType args }
+              body := renderBody extra nsq a.name a.serviceType args }
 
 /-- the request-sending half of `async_call`: what the requester receives, or the exception
     raised before anything is sent -/
-def asyncCallSend (O : Oracles) (extra : List (Char × Str)) (a : ActionDecl) (kw : Kwargs) :
+def asyncCallSend (O : Oracles) (extra : List (Char × Str)) (nsq : Bool) (a : ActionDecl) (kw : Kwargs) :
     List Request × Option Exc :=
-  match createRequest O extra a kw with
+  match createRequest O extra nsq a kw with
   | .ok r => ([r], none)
   | .error e => ([], some e)
 
@@ -217,7 +221,9 @@ def readEnvelope (body : Str) : Option Envelope := do
   let r ← stripPrefix pre1 body
   let (name, r) ← splitAt1 ' ' r
   let r ← stripPrefix pre2 r
-  let (st, r) ← splitAt1 '"' r
+  let (q, r) ← (match r with | c :: r' => if c = '"' || c = '\'' then some (c, r') else none | [] => none)
+  let (rawSt, r) ← splitAt1 q r
+  let st ← xmlDecodeAttr rawSt
   let r ← stripPrefix ['>'] r
   let (args, r) ← readArgs (r.length + 1) r
   let r ← stripPrefix (suf1 ++ name ++ suf2) r
